@@ -410,7 +410,7 @@ func channelCapacity(c *Ctx) {
 
 func noFatalOnRequestPaths(c *Ctx) {
 	R := c.R
-	R.Rule("R14g", "E4", "no process-terminating call (log.Fatal*, os.Exit, panic) is reachable through static calls from an HTTP/gRPC handler, an interceptor or a method of the cache", 30)
+	R.Rule("R14g", "E4", "no process-terminating call (log.Fatal*, os.Exit, panic) is reachable from an HTTP/gRPC handler, an interceptor, a method of the cache or a background goroutine of the cache, through static calls and through callbacks (calls of function values, resolved to the function literals of the same package with that signature)", 30)
 	var roots []*FuncInfo
 	for _, fi := range c.P.AllFuncs() {
 		switch {
@@ -425,8 +425,88 @@ func noFatalOnRequestPaths(c *Ctx) {
 			roots = append(roots, fi)
 		}
 	}
+	// background goroutines of the cache run while requests are served: a
+	// terminating call there is triggered by requests (evictions, backend checks)
+	for _, fi := range c.P.FuncsInPkg("/cache/disk") {
+		if strings.HasSuffix(c.P.Fset.Position(fi.Decl.Pos()).Filename, "_test.go") || fi.Decl.Body == nil {
+			continue
+		}
+		ast.Inspect(fi.Decl.Body, func(n ast.Node) bool {
+			if g, ok := n.(*ast.GoStmt); ok {
+				if f := Callee(fi.Pkg.TypesInfo, g.Call); f != nil {
+					if callee := c.P.FuncOf(f); callee != nil {
+						roots = append(roots, callee)
+					}
+				}
+			}
+			return true
+		})
+	}
+	// function literals of each package by signature, for calls through
+	// function-typed fields and variables (resolved within the package)
+	type litInfo struct {
+		lit  *ast.FuncLit
+		info *types.Info
+		in   string
+	}
+	lits := map[string][]litInfo{}
+	for _, fi := range c.P.AllFuncs() {
+		if strings.HasSuffix(c.P.Fset.Position(fi.Decl.Pos()).Filename, "_test.go") || fi.Decl.Body == nil {
+			continue
+		}
+		ast.Inspect(fi.Decl.Body, func(n ast.Node) bool {
+			if l, ok := n.(*ast.FuncLit); ok {
+				if t := fi.Pkg.TypesInfo.TypeOf(l); t != nil {
+					k := fi.Pkg.PkgPath + "|" + t.String()
+					lits[k] = append(lits[k], litInfo{l, fi.Pkg.TypesInfo, fi.Key})
+				}
+			}
+			return true
+		})
+	}
+	seenLit := map[*ast.FuncLit]bool{}
 	seen := map[*FuncInfo]bool{}
 	var visit func(fi *FuncInfo, path []string)
+	var visitLit func(li litInfo, path []string)
+	dynamic := func(pkgPath string, info *types.Info, call *ast.CallExpr, path []string) {
+		if Callee(info, call) != nil {
+			return
+		}
+		if tv, ok := info.Types[call.Fun]; !ok || tv.IsType() || tv.IsBuiltin() {
+			return
+		}
+		t := info.TypeOf(call.Fun)
+		if t == nil {
+			return
+		}
+		if _, ok := t.Underlying().(*types.Signature); !ok {
+			return
+		}
+		for _, li := range lits[pkgPath+"|"+t.Underlying().String()] {
+			visitLit(li, path)
+		}
+	}
+	visitLit = func(li litInfo, path []string) {
+		if seenLit[li.lit] {
+			return
+		}
+		seenLit[li.lit] = true
+		name := "func literal in " + li.in
+		path = append(path, name)
+		bad := ""
+		for _, call := range callsIn(li.lit.Body, true) {
+			if noReturnCall(li.info, call) {
+				bad = fmt.Sprintf("%s at %s", exprStr(call.Fun), c.P.Pos(call.Pos()))
+			}
+			if f := Callee(li.info, call); f != nil {
+				if callee := c.P.FuncOf(f); callee != nil {
+					visit(callee, path)
+				}
+			}
+		}
+		R.Check(bad == "", "R14g", fmt.Sprintf("%s%s:callback#%s", c.Cfg, li.in, c.P.Pos(li.lit.Pos())[strings.LastIndex(c.P.Pos(li.lit.Pos()), "/")+1:]), c.P.Pos(li.lit.Pos()), name+" (a callback reachable from a request entry point or a background goroutine of the cache) contains no process-terminating call",
+			"a request can reach "+bad+" via "+strings.Join(path, " -> ")+": the whole server terminates")
+	}
 	visit = func(fi *FuncInfo, path []string) {
 		if seen[fi] || strings.HasSuffix(c.P.Fset.Position(fi.Decl.Pos()).Filename, "_test.go") {
 			return
@@ -443,6 +523,7 @@ func noFatalOnRequestPaths(c *Ctx) {
 					visit(callee, path)
 				}
 			}
+			dynamic(fi.Pkg.PkgPath, fi.Pkg.TypesInfo, call, path)
 		}
 		R.Check(bad == "", "R14g", c.Cfg+fi.Key, c.P.Pos(fi.Decl.Pos()), fi.Key+" (reachable from a request entry point) contains no process-terminating call",
 			"a request can reach "+bad+" via "+strings.Join(path, " -> ")+": one request terminates the whole server")
